@@ -475,7 +475,8 @@ let ecls_of_code = function
 let pos_of = function 0 -> PQuery | 1 -> PHeader | 2 -> PPath | _ -> PCookie
 let pos_name = function PQuery -> "query" | PHeader -> "header" | PPath -> "path" | PCookie -> "cookie"
 let show_param p = Printf.sprintf "%d.%s" (int_of_nat p.p_name) (pos_name p.p_pos)
-let run_o () =
+let run_o with_graph =
+  let gv = if with_graph then Some (read_variant ()) else None in
   let v = (next () <> 0) in
   let ncomp = next () in
   let tbl = Hashtbl.create 16 in
@@ -513,7 +514,24 @@ let run_o () =
       outs := show_res (fun pl -> String.concat ";" (List.map (fun g ->
           (match g.g_param with Some p -> show_param p | None -> "body")
           ^ "/o" ^ (match g.g_omit with None -> "-" | Some true -> "1" | Some false -> "0")
-          ^ "/v" ^ ints g.g_valid ^ "/i" ^ ints g.g_invalid) pl)) r :: !outs
+          ^ "/v" ^ ints g.g_valid ^ "/i" ^ ints g.g_invalid) pl)
+          ^ (match gv with
+             | None -> ""
+             | Some gvar ->
+               (* the request graph of the plan and what generate_paths yields for it *)
+               let fuel = nat_of_int 64 in
+               let g = plan_graph pl in
+               (match generate_paths gvar fuel g O aempty aempty with
+                | Ok (_, (es, stt)) ->
+                  "|entries=" ^ String.concat "," (List.map (fun e ->
+                    ints e.epath ^ ":" ^ (if e.evalid then "1" else "0") ^ ":" ^
+                    (match picks pl e.epath with
+                     | Some cs -> String.concat "." (List.map (fun (_, c) ->
+                         match c with COmit -> "o" | CVal s -> string_of_int (int_of_nat s)) cs)
+                     | None -> "?")) es)
+                  ^ "|status=" ^ show_res (fun () -> "") stt
+                  ^ "|wf=" ^ (if wfb g O then "1" else "0")
+                | r -> "|fail=" ^ show_res (fun _ -> "") r))) r :: !outs
     end else begin
       let ow = List.init n (fun _ -> let name = next_nat () in (name, next_nat ())) in
       let (c', r) = generate_one_valid compute !c op ow in
@@ -553,7 +571,8 @@ let () =
            | "X" -> run_x ()
            | "J" -> run_j ()
            | "F" -> run_f ()
-           | "O" -> run_o ()
+           | "O" -> run_o false
+           | "OG" -> run_o true
            | t -> print_endline ("error=unknown-stream:" ^ t)
          with Stack_overflow -> print_endline "error=stack-overflow"
             | Failure m -> print_endline ("error=failure:" ^ m)
